@@ -668,6 +668,18 @@ class MailboxWorld:
         q = self.conn(act["k"]).s2c
         del q[act["i"]]
 
+    def _do_DupS2C(self, act):
+        """The server sends a frame it has queued for the client a second time (the copy goes to the end of the queue)."""
+        q = self.conn(act["k"]).s2c
+        q.append(dict(q[act["i"]]))
+
+    def _do_MoveS2C(self, act):
+        """The server delivers a queued frame earlier than it stored it (the mailbox is an unordered set to the protocol)."""
+        q = self.conn(act["k"]).s2c
+        fr = q[act["i"]]
+        del q[act["i"]]
+        q.insert(act["to"], fr)
+
     def _do_SwapS2C(self, act):
         q = self.conn(act["k"]).s2c
         i = act["i"]
